@@ -348,6 +348,11 @@ pub fn run(tier: Tier, _replay: Option<String>, part: Option<usize>) -> i32 {
     if let Some(d) = dis {
         rep.machinery_error(format!("shim/real channel conformance failed: {d}"));
     }
+    // the shim's own code under the scheduler (non-blocking and timed operations), one level shallower
+    let (nseq_shim, dis_shim) = if part.is_none() { conformance::run_shim(depth - 1) } else { (0, None) };
+    if let Some(d) = dis_shim {
+        rep.machinery_error(format!("shim code / real channel conformance failed: {d}"));
+    }
     // ---- 1. scheduler scenarios
     let bound = if tier.is_thorough() { 2 } else { 1 };
     let (_, clean3) = streams::multi_link(2, 2, 0, false, false); // 2 links x 2 HBFs = 8 packets = 4 batches of 2
@@ -628,6 +633,7 @@ pub fn run(tier: Tier, _replay: Option<String>, part: Option<usize>) -> i32 {
     rep.cov("tla", json!(tla_json));
     rep.cov("tla_implementation_traces_walked_through_model_graph", json!(tla_traces));
     rep.cov("channel_conformance_sequences", json!(nseq));
+    rep.cov("shim_code_conformance_sequences_under_the_scheduler", json!(nseq_shim));
     rep.cov("channel_conformance_depth", json!(depth));
     rep.sample(json!({"schedule": [0, 0, 0, 3], "meaning": "default choices, then the 4th enabled thread (e.g. Signal) at the 4th scheduling point"}));
     rep.assume("OS signal delivery and the ctrlc crate's thread are outside the scheduler: the handler body (store true into the stop flag) is modelled as an event placed at scheduling points; the real handler is exercised by an enumerated menu of real signals on the real binary (earlier stop cause x signal kind x one/two signals x delays), which is a menu, not all instants");
